@@ -546,6 +546,21 @@ func (e *Env) eval(ex ast.Expr) (SVal, error) {
 				}
 			}
 		}
+		if base.K == KU {
+			// a field of an object behind an untracked pointer (timer.C): the executor keeps it under <pointer>-><field>
+			if v, ok := e.heapVal(provName(base) + "->" + ex.Sel.Name); ok {
+				return v, nil
+			}
+			if base.GoT != nil {
+				if st, ok := isStruct(derefType(base.GoT)); ok {
+					for i := 0; i < st.NumFields(); i++ {
+						if st.Field(i).Name() == ex.Sel.Name {
+							return e.X.load(e.St, provName(base)+"->"+ex.Sel.Name, st.Field(i).Type(), token.NoPos), nil
+						}
+					}
+				}
+			}
+		}
 		if base.K == KStruct && base.Loc != "" {
 			// lazily assembled struct: field by key, in the state (before / after) the struct was looked up in
 			c := e.sub()
@@ -861,6 +876,29 @@ func (e *Env) callExpr(ex *ast.CallExpr) (SVal, error) {
 			}
 		}
 		return SVal{}, fmt.Errorf("watches(%s): no such event on this path", pat)
+	case "chosen":
+		// chosen(EventPattern, ch): the (unique) matching select event proceeded with its case on channel ch
+		pat := e.resolveEventName(argStr(0))
+		want, err := e.eval(ex.Args[1])
+		if err != nil {
+			return SVal{}, err
+		}
+		for i := range e.Events {
+			if eventNameMatch(pat, e.Events[i].Name) {
+				if len(e.Events[i].Res) == 0 {
+					return SVal{}, fmt.Errorf("chosen(%s): the event records no chosen case", pat)
+				}
+				var alts []string
+				for j, a := range e.Events[i].Args {
+					alts = append(alts, and(eq(e.Events[i].Res[0].T, intLit(int64(j))), e.X.valEq(e.St, a, want)))
+				}
+				if len(alts) == 0 {
+					return mkBool("false"), nil
+				}
+				return mkBool(or(alts...)), nil
+			}
+		}
+		return SVal{}, fmt.Errorf("chosen(%s): no such event on this path", pat)
 	case "atevent":
 		// atevent(EventPattern, cell): the value of an operator cell when the (first) matching downstream call was made
 		pat := e.resolveEventName(argStr(0))
